@@ -298,6 +298,29 @@ def run_args(ctx):
              "{}", "{0}", "a{b}c", "{host}.example.com", "x{0.real}y", "{!r}{}{}", "{0[0]}", "{:>99999999999}", "%s", "%(a)s", "%d%d", "%*d", "${x}", "\\N{BULLET}", "{", "}", "{{}}", "{0!z}",
              # invalid punycode / odd A-labels (the decoders' error paths)
              "m\u00fcnchen.node7", "\u043f\u0440\u0438\u043c\u0435\u0440.srv2", "\uff11\uff12\uff17.\uff10.\uff10.\uff11", "\u00e91", "b\u00fccher.9", "[\uff10::\uff11]", "\u00e9:1", "xn--0.com", "xn--zz", "xn--a.example", "www.xn--999999999.org", "xn--", "XN--0", "xn--\u00e9"]
+    # every registered-looking SCHEME x every way build() can be handed an authority, plain and pre-encoded: scheme tables differ
+    # (default ports, 'takes an authority', 'resolves relatively'), a scheme in one and not in another is where a lookup can slip
+    if ctx.shard == 0:
+        for sch in ("", "file", "ftp", "git", "git+ssh", "gopher", "http", "https", "imap", "itms-services", "mms", "nfs", "nntp", "prospero", "rsync", "rtsp", "rtsps", "rtspu", "sftp", "shttp",
+                    "snews", "svn", "svn+ssh", "telnet", "wais", "ws", "wss", "mailto", "news", "tel", "urn", "data", "javascript", "foo", "x-y.z+1", "HTTP", "Sftp"):
+            for enc in (False, True):
+                for kw in ({"host": "h", "port": 80}, {"host": "h", "port": 21}, {"host": "h", "port": 443}, {"host": "h", "port": 1}, {"host": "h"}, {"host": "[::1]" if enc else "::1", "port": 22, "user": "u"},
+                           {"authority": "u@h:22"}, {"host": "h", "port": 0, "user": "u", "password": "p"}, {"path": "/p"}, {"host": "h", "port": None}):
+                    ok, v = call(lambda: URL.build(scheme=sch, encoded=enc, **kw))
+                    ctx.count("arg_calls")
+                    ctx.ev(("build-scheme", sch, enc, tuple(sorted(kw)), "ok" if ok else type(v).__name__))
+                    if not ok:
+                        if not allowed(v):
+                            ctx.fail("exception_type", {"at": "build-scheme", "scheme": sch, "encoded": enc, "kw": repr(kw)}, f"build(scheme={sch!r}, encoded={enc}, **{kw}) raised {type(v).__name__}: {v}")
+                        continue
+                    for a in ("port", "explicit_port", "host", "raw_host", "authority", "host_port_subcomponent"):
+                        ok2, v2 = call(getattr, v, a)
+                        if not ok2 and not allowed(v2):
+                            ctx.fail("exception_type", {"at": "build-scheme." + a, "scheme": sch, "encoded": enc, "kw": repr(kw)}, f".{a} raised {type(v2).__name__}: {v2}")
+                    for fn2 in (str, lambda u: u.origin(), lambda u: u.is_default_port(), lambda u: u.with_port(80), lambda u: u.with_scheme("https"), lambda u: u / "x"):
+                        ok2, v2 = call(fn2, v)
+                        if not ok2 and not allowed(v2):
+                            ctx.fail("exception_type", {"at": "build-scheme.use", "scheme": sch, "encoded": enc, "kw": repr(kw)}, f"use of build(scheme={sch!r}, encoded={enc}, **{kw}) raised {type(v2).__name__}: {v2}")
     texts = ("".join(t) for L in range(0, maxlen + 2) for t in itertools.product(ALPHA, repeat=L))
     n4 = len(ALPHA) ** maxlen
     for t in itertools.chain(extra, texts):
